@@ -319,6 +319,43 @@ def ld_dictify_all(ctx, a, seam):
     return dl.dictify_all_complex_values(ctx.arg(a["doc"]))
 
 
+def _is_note(v):
+    return isinstance(v, dict) and sorted(v.keys()) in (["imag", "real"], ["abs", "phase"], ["abs", "phase_deg"])
+
+
+def model_undictify_flat(ctx, a, res, rec):
+    doc = _fresh(ctx, a["doc"])
+    try:
+        exp = {k: (m_undictify(v) if _is_note(v) else v) for k, v in doc.items()}
+    except ModelRaises:
+        return None if isinstance(res, BaseException) else _viol("accepted-malformed", "negative abs accepted")
+    if isinstance(res, BaseException):
+        return _viol("load-failed", f"undictify_complex_values of a well-formed dictionary raised {type(res).__name__}")
+    d = _same_doc(res, exp)
+    return _viol("wrong-value", d) if d else None
+
+
+@op("ld.undictify_flat", model=model_undictify_flat)
+def ld_undictify_flat(ctx, a, seam):
+    nl, dl, cdl = _mods()
+    return dl.undictify_complex_values(ctx.arg(a["doc"]))
+
+
+def model_dictify_flat(ctx, a, res, rec):
+    doc = _fresh(ctx, a["doc"])
+    exp = {k: ({"real": v.real, "imag": v.imag} if isinstance(v, complex) else v) for k, v in doc.items()}
+    if isinstance(res, BaseException):
+        return _viol("serialize-failed", f"dictify_complex_values raised {type(res).__name__}")
+    d = _same_doc(res, exp)
+    return _viol("wrong-value", d) if d else None
+
+
+@op("ld.dictify_flat", model=model_dictify_flat)
+def ld_dictify_flat(ctx, a, seam):
+    nl, dl, cdl = _mods()
+    return dl.dictify_complex_values(ctx.arg(a["doc"]))
+
+
 def model_serialize(ctx, a, res, rec):
     if a["fmt"] not in ("json", "yaml", "yml"):
         return None if isinstance(res, BaseException) else _viol("accepted-malformed", "unknown format accepted")
